@@ -24,7 +24,8 @@ RULE = ("seeded abstract VMs (0..8 devices on scsi/sata/ide/nvme with any bus:un
         "controllers, 2..15 unrelated settings incl. sched.scsi0:0.*, ethernet1.fileName, floppy0.*) rendered by independent "
         "writers: VMX with random key casing, line order, comments, blank lines, quoting, CRLF, stale earlier assignments and an "
         "appended block re-assigning keys three or more times with spellings A/b/A; OVF with random prefixes, default namespace, "
-        "disk-vs-file host resources, crossed ids, decoy ResourceType texts; VirtualBox registries (machine / global styles, "
+        "disk-vs-file host resources, crossed ids (and, on every run, envelopes whose disk ids are a rotation of the file ids with both "
+        "HostResource forms), decoy ResourceType texts; on every run VMs whose file names / settings contain '#'; VirtualBox registries (machine / global styles, "
         "differencing children, mixed formats and types, typed disks nested in disks of any format/type to depth 4, look-alike "
         "elements); Parallels hardware lists (Hdd/CdRom/Fdd, nested Partition/SystemName, shuffled children). Compared: the "
         "disk list (VMX sorted, XML in document order), for VMX also the dictionary and look-ups: real code vs Lean model vs "
@@ -179,6 +180,104 @@ def render_vbox_nested(vm, rng):
     return G._doc(root, rng), truth
 
 
+# --------------------------------------------------------------------------- VMX: '#' inside values
+
+HASH_NAMES = ["Data #%d", "/vmfs/volumes/ds#1/vm/scratch%d", "#lead%d", "tail%d#", "a # b #%d", "C:\\VMs\\#x\\disk%d", "x## %d", "# %d"]
+
+
+def hashify(vm, rng):
+    """-> a copy of the VM whose media names (and two unrelated settings) contain '#': in a VMX file '#' starts a comment only
+    as the first non-blank character of a line, never inside a value"""
+    vm = dict(vm, devices=[dict(d) for d in vm["devices"]], unrelated=[list(kv) for kv in vm["unrelated"]])
+    n = 0
+    for d in vm["devices"]:
+        n += 1
+        if d["kind"] in G.DISK_KINDS and d["file"]:
+            d["file"] = rng.choice(HASH_NAMES) % n
+        elif d["kind"] == "cdrom-image" and d["file"]:
+            d["file"] = rng.choice(["tools #%d.iso", "#%d.iso", "/iso/os#%d.iso"]) % n
+    if not any(d["kind"] in G.DISK_KINDS and d["file"] for d in vm["devices"]):
+        vm["devices"].append({"cls": "scsi", "bus": 3, "unit": 30, "kind": "disk", "file": "Data #2"})
+        if not any(c["cls"] == "scsi" and c["bus"] == 3 for c in vm["controllers"]):
+            vm["controllers"] = vm["controllers"] + [{"cls": "scsi", "bus": 3, "props": [["present", "TRUE"]]}]
+    have = {k.lower() for k, _ in vm["unrelated"]}
+    for k, v in (("annotation", "see ticket #42 # urgent"), ("displayName", "vm #7"), ("guestinfo.note", "#starts with hash")):
+        if k.lower() not in have:
+            vm["unrelated"].append([k, v])
+    return vm
+
+
+# --------------------------------------------------------------------------- OVF: file ids and disk ids are independent id spaces
+
+def render_ovf_crossed(vm, rng):
+    """An envelope in which every Disk's ovf:diskId equals the ovf:id of a File that backs a *different* disk (the disk ids are a
+    rotation of the file ids), with hard-disk Items in both the /disk/ and the /file/ HostResource form, CD-ROM / floppy items
+    on files whose ids are used as well, controllers and decoys (-> xml, hrefs of the hard-disk items in document order)."""
+    O, R = G.OVF_NS, G.RASD_NS
+    po, pr = rng.choice(["ovf", "ovf", "o", "ns0"]), rng.choice(["rasd", "rasd", "r"])
+    decl = [(po, O), (pr, R)] + ([("", O)] if rng.random() < 0.6 else [])
+    rng.shuffle(decl)
+    disks = [{"href": d["file"] + ".vmdk", "kind": "disk"} for d in G.hard_disks(vm)]
+    while len(disks) < 2 or (len(disks) < 6 and rng.random() < 0.3):
+        disks.append({"href": "extra-%d.vmdk" % len(disks), "kind": "disk"})
+    others = [{"href": d["file"], "kind": d["kind"]} for d in vm["devices"] if d["kind"] in ("cdrom-image", "floppy") and d["file"]]
+    media = disks + others
+    rng.shuffle(media)
+    style = rng.choice(["file%d", "x%d", "vmdisk%d", "%d"])
+    for i, m in enumerate(media):
+        m["fid"] = style % (i + 1)
+    dm = [m for m in media if m["kind"] == "disk"]
+    k = rng.randrange(1, len(dm))
+    for i, m in enumerate(dm):                                # disk i carries the file id of disk i+k
+        m["did"] = dm[(i + k) % len(dm)]["fid"]
+    forms = ["disk", "file"] + [rng.choice(["disk", "disk", "file"]) for _ in dm[2:]]
+    rng.shuffle(forms)
+    for m, f in zip(dm, forms):
+        m["via"] = f
+    files = [G.el("File", [(O, "href", m["href"]), (O, "id", m["fid"])] + ([(O, "size", str(rng.randrange(1 << 30)))] if rng.random() < 0.7 else []), ns=O) for m in media]
+    dels = [G.el("Disk", [(O, "capacity", str(rng.choice([1, 40, 17]))), (O, "diskId", m["did"]), (O, "fileRef", m["fid"])], ns=O) for m in dm]
+    rng.shuffle(dels)
+    iid = [0]
+
+    def item(rt, name, **kw):
+        iid[0] += 1
+        ch = [("ResourceType", str(rt)), ("ElementName", name), ("InstanceID", str(iid[0]))] + [(a, b) for a, b in kw.items() if b is not None]
+        ch = sorted(ch) if rng.random() < 0.6 else rng.sample(ch, len(ch))
+        return G.el("Item", kids=[G._t(a, b, R) for a, b in ch], ns=O)
+    pairs = [(item(3, "17 virtual CPU(s)", VirtualQuantity="17"), None), (item(6, "SCSI Controller 0", Address="0", ResourceSubType="lsilogic"), None),
+             (item(5, "IDE 17", Address="17"), None), (item(10, "Ethernet adapter on 17", Connection="VM Network", AddressOnParent="17"), None)]
+    for m in media:
+        pre = rng.choice(["ovf:", "ovf:", ""])
+        if m["kind"] == "disk":
+            hr = pre + (f"/disk/{m['did']}" if m["via"] == "disk" else f"/file/{m['fid']}")
+            pairs.append((item(17, rng.choice(["Hard Disk 1", "disk", "17"]), HostResource=hr, AddressOnParent=str(rng.randrange(16))), m["href"]))
+        else:
+            rt = 14 if m["kind"] == "floppy" else rng.choice([15, 16])
+            pairs.append((item(rt, rng.choice(["CD/DVD drive 1", "Floppy", "17"]), HostResource=pre + f"/file/{m['fid']}", AddressOnParent="17"), None))
+    if rng.random() < 0.6:
+        rng.shuffle(pairs)
+    truth = [h for _, h in pairs if h is not None]
+    info = lambda t: G.el("Info", kids=[t], ns=O)
+    vhs = G.el("VirtualHardwareSection", kids=[info("Virtual hardware requirements")] + [p[0] for p in pairs], ns=O)
+    vs = G.el("VirtualSystem", [(O, "id", vm["name"])], [info("A virtual machine"), vhs], ns=O)
+    top = [G.el("References", kids=files, ns=O), G.el("DiskSection", kids=[info("Virtual disk information")] + dels, ns=O), vs]
+    return G._doc(G.el("Envelope", kids=top, ns=O, decl=decl), rng), truth
+
+
+def ovf_shape(text):
+    """(has a Disk whose diskId is the id of a File backing a different disk, has /disk/ hard-disk item, has /file/ hard-disk item)"""
+    from defusedxml import ElementTree
+    O, R = "{%s}" % G.OVF_NS, "{%s}" % G.RASD_NS
+    try:
+        root = ElementTree.fromstring(text)
+    except Exception:  # noqa
+        return False, False, False
+    fids = {f.get(O + "id") for f in root.iter(O + "File")}
+    crossed = any(d.get(O + "diskId") in fids and d.get(O + "diskId") != d.get(O + "fileRef") for d in root.iter(O + "Disk"))
+    hrs = [(it.findtext(R + "HostResource") or "") for it in root.iter(O + "Item") if it.findtext(R + "ResourceType") == "17"]
+    return crossed, any("/disk/" in h for h in hrs), any("/file/" in h for h in hrs)
+
+
 # --------------------------------------------------------------------------- cases
 
 def _render(recipe):
@@ -188,6 +287,9 @@ def _render(recipe):
         return text, truth, tdict, qs
     if fmt == "vbox" and recipe.get("variant") == "nested":
         text, truth = render_vbox_nested(vm, random.Random(rs))
+        return text, truth, None, []
+    if fmt == "ovf" and recipe.get("variant") == "crossed":
+        text, truth = render_ovf_crossed(vm, random.Random(rs))
         return text, truth, None, []
     text, truth = G.build(recipe)
     return text, truth, None, []
@@ -199,12 +301,16 @@ def generate(seed, tier):
     cases = []
     for i in range(n):
         vm = G.gen_vm(rng, tier)
+        if i % 5 == 1:                                        # every run: '#' inside values (all four renderings of this VM)
+            vm = hashify(vm, rng)
         for fmt in FMTS:
             variant = None
             if fmt == "vmx":
                 variant = "reassign" if rng.random() < 0.6 else None
             if fmt == "vbox":
                 variant = "nested" if rng.random() < 0.4 else None
+            if fmt == "ovf":                                  # every run: disk ids that are other files' ids, both HostResource forms
+                variant = "crossed" if i % 4 == 2 or rng.random() < 0.15 else None
             recipe = {"vm": vm, "fmt": fmt, "rseed": rng.getrandbits(32), "variant": variant}
             qs = _render(recipe)[3]
             cases.append({"id": f"{fmt}{i}", "recipe": recipe, "queries": ["disks"] + (["dict"] + qs if fmt == "vmx" else [])})
@@ -226,6 +332,8 @@ def build(case):
         answers = [canon_list(truth), dict_digest(list(tdict.items()))] + [_h(tdict.get(q)) for q in qs]
         branches |= {"vmx-crlf"} if "\r\n" in text else set()
         branches |= {"vmx-comment"} if "\n#" in text or "\n #" in text or "\n\t#" in text else set()
+        branches |= {"vmx-hash-in-disk-file"} if any("#" in t for t in truth) else set()
+        branches |= {"vmx-hash-in-value"} if any("#" in v for v in tdict.values()) else set()
         if r.get("variant") == "reassign" and len(qs) > 5:
             branches.add("vmx-reassigned-key")
         in_scope = all(_lower_ok(l.partition("=")[0]) for l in text.split("\n")) and all(_lower_ok(v) for k, v in tdict.items() if k.endswith(".devicetype"))
@@ -234,8 +342,12 @@ def build(case):
         if fmt == "vbox":
             branches |= {"vbox-nested-reported"} if r.get("variant") == "nested" and len(truth) > 1 else set()
         if fmt == "ovf":
-            branches |= {"ovf-via-file"} if "/file/" in text else set()
-            branches |= {"ovf-via-disk"} if "/disk/" in text else set()
+            answers.append("spec=ok")                         # model = specification of ovf_disks_exact wherever its hypothesis holds
+            cr, vd, vf = ovf_shape(text)
+            branches |= {"ovf-via-file"} if vf else set()
+            branches |= {"ovf-via-disk"} if vd else set()
+            branches |= {"ovf-diskid-is-other-file-id"} if cr else set()
+            branches |= {"ovf-diskid-is-other-file-id+both-forms"} if cr and vd and vf else set()
     branches |= {"has-" + k for k in kinds}
     branches.add("disks=%s" % (len(truth) if len(truth) < 4 else "4+"))
     nt = bool(truth) and (bool(kinds - set(G.DISK_KINDS)) or r.get("variant") is not None or len(vm["unrelated"]) > 0 and fmt == "vmx")
@@ -278,6 +390,8 @@ def impl_run(case, built):
     except Exception as e:  # noqa
         answers.append("E")
         errors["0"] = f"{type(e).__name__}: {e}"[:300]
+    if fmt == "ovf":
+        answers.append("spec=ok")
     return {"answers": answers, "errors": errors}
 
 
@@ -304,7 +418,8 @@ def model_lines(case, built):
         return ["cfg.noxml"]
     if any(not isinstance(x.tag, str) for x in root.iter()):
         return ["cfg.noxml"]
-    return [" ".join(["cfg." + fmt] + tree_tokens(root, []))]
+    toks = tree_tokens(root, [])
+    return [" ".join(["cfg." + fmt] + toks)] + ([" ".join(["cfg.ovfspec"] + toks)] if fmt == "ovf" else [])
 
 
 def _unhex(t):
@@ -318,6 +433,14 @@ def model_parse(case, built, out):
     if not line.startswith("ok "):
         return {"answers": None, "wf": None, "raw": line[:200]}
     parts = line.split(" ")
+    if built.info["fmt"] == "ovf":
+        # second line: `ok <ovfWfb 0|1> <ovfSpec>`; inside the hypothesis of ovf_disks_exact the model must equal the specification
+        sp = out[1].split(" ") if len(out) > 1 and out[1].startswith("ok ") else None
+        if sp is None:
+            return {"answers": [parts[1], "spec=?"], "wf": None, "raw": (out[1] if len(out) > 1 else "")[:200]}
+        wfb = sp[1] == "1"
+        ok = (not wfb) or sp[2] == parts[1]
+        return {"answers": [parts[1], "spec=ok" if ok else "spec=" + sp[2][:200]], "wf": wfb and built.info["in_scope"], "spec": sp[2]}
     if built.info["fmt"] != "vmx":
         return {"answers": [parts[1]], "wf": parts[1] != "E" and built.info["in_scope"]}
     items = []
@@ -339,7 +462,7 @@ def search(seed, broken, budget):
     for i in range(min(budget, 2000) // 4):
         vm = G.gen_vm(rng, "thorough")
         for fmt in FMTS:
-            variant = {"vmx": "reassign", "vbox": "nested" if i % 2 else None}.get(fmt)
+            variant = {"vmx": "reassign", "vbox": "nested" if i % 2 else None, "ovf": "crossed" if i % 2 else None}.get(fmt)
             recipe = {"vm": vm, "fmt": fmt, "rseed": rng.getrandbits(32), "variant": variant}
             qs = _render(recipe)[3]
             cases.append({"id": f"s{fmt}{i}", "recipe": recipe, "queries": ["disks"] + (["dict"] + qs if fmt == "vmx" else [])})
